@@ -548,3 +548,133 @@ def instantaneous_jacobian_entry_with_delayed_factor(case):
         if any(c is None for c in _past_coeffs(ast)):
             return True
     return False
+
+
+# ---- population / connectivity specs (C16) -------------------------------------------------------------
+
+def _pspec(case):
+    return case.get("pspec")
+
+
+@predicate("F-16b")
+def two_connectivities_from_one_population_into_one_variable(case):
+    """two Connectivity objects from the same source population (same or different source variables) into the same
+    target variable"""
+    ps = _pspec(case)
+    if not ps:
+        return False
+    pairs = [(c["s"].split("/")[0], c["t"]) for c in ps["conns"]]
+    return len(set(pairs)) < len(pairs)
+
+
+@predicate("F-16c")
+def coupling_edge_between_different_populations(case):
+    """a Connectivity with a coupling EdgeTemplate whose source and target populations differ"""
+    ps = _pspec(case)
+    if not ps:
+        return False
+    return any(c.get("coupling") and c["s"].split("/")[0] != c["t"].split("/")[0] for c in ps["conns"])
+
+
+@predicate("F-16d")
+def single_unit_population_in_nontrivial_connectivity(case):
+    """a population with a single unit (n=1) that is source or target of a Connectivity which is delayed, carries a
+    coupling EdgeTemplate, or links it with a population of a different size"""
+    ps = _pspec(case)
+    if not ps:
+        return False
+    size = {p[0]: p[2] for p in ps["pops"]}
+    for c in ps["conns"]:
+        ns, nt = size[c["s"].split("/")[0]], size[c["t"].split("/")[0]]
+        if (ns == 1 or nt == 1) and (c.get("d") is not None or c.get("coupling") or ns != nt):
+            return True
+    return False
+
+
+@predicate("F-16e")
+def population_equation_without_vector_operands(case):
+    """population (always vectorised) whose operator has an equation that effectively depends on parameters, numbers and
+    input variables only (V = -k, x' = xin + pi, x' = 2*alpha with alpha driven by a Connectivity): when the node
+    operators are parsed the inputs still have their scalar default shape, parameters with one distinct value are
+    collapsed to scalars, and the equation loses its vector shape ('Shapes of state variable ... do not match' or wrong
+    per-unit values)"""
+    ps = _pspec(case)
+    if not ps:
+        return False
+    for name, nt, n, params in ps["pops"]:
+        for o in ps["ntypes"][nt]["ops"]:
+            od = ps["ops"][o]
+            kinds = {v[0]: v[1] for v in od["vars"]}
+            for e in od["eqs"]:
+                if all(kinds.get(v) in ("const", "input") for v in _effective_vars(e[2])):
+                    return True
+    return False
+
+
+def _effective_vars(ast):
+    """variables whose value actually influences the expression (x*a - a*x influences nothing)"""
+    from . import expr as E
+    import numpy as np
+    names = sorted(E.variables(ast))
+    base = {n: 0.37 + 0.11 * i for i, n in enumerate(names)}
+    out = set()
+    try:
+        with np.errstate(all="ignore"):
+            v0 = E.evaluate(ast, base)
+            for n in names:
+                for delta in (0.4321, -0.777):
+                    env = dict(base)
+                    env[n] = base[n] + delta
+                    v1 = E.evaluate(ast, env)
+                    if not (np.isfinite(v0) and np.isfinite(v1)) or abs(v1 - v0) > 1e-12:
+                        out.add(n)
+                        break
+    except Exception:
+        return set(names)
+    return out
+
+
+@predicate("F-16f")
+def two_delayed_connectivities_from_one_source_variable(case):
+    """two delayed Connectivity objects leaving the same source variable: their delay buffers collide on the buffer
+    variable names and targets receive wrongly delayed values"""
+    ps = _pspec(case)
+    if not ps:
+        return False
+    src = [c["s"] for c in ps["conns"] if c.get("d") is not None]
+    return len(set(src)) < len(src)
+
+
+@predicate("F-16g")
+def scalar_weight_connectivity_as_only_vector_operand(case):
+    """a scalar-weight (global) Connectivity delivers a scalar; when its target input is the only non-parameter operand
+    of an equation, the equation loses its vector shape ('Shapes of state variable ... do not match')"""
+    ps = _pspec(case)
+    if not ps:
+        return False
+    from . import expr as E
+    pop_nt = {p[0]: p[1] for p in ps["pops"]}
+    scalar_targets = {c["t"] for c in ps["conns"] if not isinstance(c["W"], list)}
+    matrix_targets = {c["t"] for c in ps["conns"] if isinstance(c["W"], list)}
+    for t in scalar_targets - matrix_targets:
+        pop, o, v = t.split("/")
+        od = ps["ops"][o]
+        kinds = {x[0]: x[1] for x in od["vars"]}
+        for e in od["eqs"]:
+            vs = _effective_vars(e[2])
+            if v in vs and all(kinds.get(x) == "const" or x == v for x in vs):
+                return True
+    return False
+
+
+@predicate("F-16h")
+def coupling_connectivity_next_to_another_into_one_variable(case):
+    """a target variable that receives a Connectivity with a coupling EdgeTemplate together with a further
+    Connectivity: NameError (<src>_in<k>) when the function is called"""
+    ps = _pspec(case)
+    if not ps:
+        return False
+    by_t = {}
+    for c in ps["conns"]:
+        by_t.setdefault(c["t"], []).append(c)
+    return any(len(v) >= 2 and any(c.get("coupling") for c in v) for v in by_t.values())
